@@ -1256,14 +1256,14 @@ package grpctunnel
 //@   nopanic[C09,C12]
 
 //@ func (*TunnelServiceHandler).pickKey
-//@   locks s.mu, rc.mu
+//@   locks s.mu, any reverseChannels.mu
 //@   assigns nothing
 //@   at call pick#1
 //@     assert[C12] @rightkey arg0 == rc
 //@   nopanic[C09,C12]
 
 //@ func (*TunnelServiceHandler).keyIsReady
-//@   locks s.mu, rc.mu
+//@   locks s.mu, any reverseChannels.mu
 //@   assigns nothing
 //@   nopanic[C09,C12]
 
@@ -1280,7 +1280,7 @@ package grpctunnel
 //@     assert[C12,C14] @samekey gone && arg1 == ch
 //@   ensures[C12,C14] @pairing count("call:remove") == 2 ==> gone
 //@   ensures[C12]     @notthere !gone ==> count("call:remove") == 1
-//@   locks s.mu, s.reverse.mu, rc.mu
+//@   locks s.mu, s.reverse.mu, any reverseChannels.mu
 //@   assigns nothing
 //@   nopanic[C09,C12]
 
@@ -1314,18 +1314,29 @@ package grpctunnel
 //@ func (*TunnelServiceHandler).KeyAsChannel$1
 //@   at call pickKey#1
 //@     assert[C12] @key arg0 == s && arg1 == key
-//@   locks s.mu, rc.mu
+//@   locks s.mu, any reverseChannels.mu
 //@   assigns nothing
 //@ func (*TunnelServiceHandler).KeyAsChannel$2
 //@   at call keyIsReady#1
 //@     assert[C12] @key arg0 == s && arg1 == key
-//@   locks s.mu, rc.mu
+//@   locks s.mu, any reverseChannels.mu
 //@   assigns nothing
 //@ func (*TunnelServiceHandler).KeyAsChannel$3
+//@   requires ctx != nil
 //@   at call waitForKeyReady#1
-//@     assert[C12] @key arg0 == s && arg1 == key && arg1 == ctx || true
-//@   locks s.mu, rc.mu
+//@     assert[C12] @key arg0 == s && arg2 == key && arg1 == ctx
+//@   locks s.mu, any reverseChannels.mu
 //@   assigns nothing
+
+//@ func (*TunnelServiceHandler).waitForKeyReady
+//@   requires ctx != nil
+//@   at call reverseChannelsForKey#1
+//@     assert[C12] @key arg1 == key
+//@   at call waitForReady#1
+//@     assert[C12] @ctx arg1 == ctx
+//@   locks s.mu, any reverseChannels.mu
+//@   assigns nothing
+//@   nopanic[C09]
 
 //@ func (*TunnelServiceHandler).openReverseTunnel
 //@   ghost key1 any = nil
